@@ -28,6 +28,7 @@ shutil.copy(demo, f"{out}/demo.py")
 det = {}
 a = sh(f"git -C /repo apply {out}/patch.diff")
 assert a.returncode == 0, a.stderr
+sh("rm -rf /tmp/ev_backup_imp; cp -r /verif/evidence /tmp/ev_backup_imp")     # evidence must come from the unchanged tree
 try:
     for c in checks:
         r = sh(f"cd /verif && ./check {c}")
@@ -35,6 +36,7 @@ try:
         det[c] = dict(exit=r.returncode, lines=lines)
 finally:
     sh("git -C /repo checkout -- .")
+    sh("rm -rf /verif/evidence; mv /tmp/ev_backup_imp /verif/evidence")
 meta = dict(id=sid, property=prop, needs=needs, source="independent sub-agent (saw only the property text and a scratch worktree)",
             confirmed=dict(tests_with_change=tests, demo_with_change_exit=r1.returncode, demo_without_change_exit=r0.returncode,
                            demo_failure=(r1.stderr or r1.stdout).strip().splitlines()[-1][:300]),
